@@ -209,7 +209,8 @@ def strat_product():
 
 
 def strat_cli():
-    hdr = st.text(alphabet=PRINTABLE, min_size=1, max_size=40).filter(lambda s: s.strip() != '' and not re.match(r'^\s*SSH-\d\.', s) and s == s.rstrip())
+    # header lines are shown verbatim, so a line that imitates the report's own '(xxx) ' prefixes cannot be told apart by any reader of the report
+    hdr = st.text(alphabet=PRINTABLE, min_size=1, max_size=40).filter(lambda s: s.strip() != '' and not re.match(r'^\s*SSH-\d\.', s) and s == s.rstrip() and not re.match(r'^\s*[(#]', s))
     def build(t):
         line, headers, eol, seg = t
         return {'kind': 'cli', 'line': line, 'header': headers, 'eol': eol, 'segment': seg}
